@@ -5,7 +5,7 @@ from .common import *   # noqa: F401,F403
 from . import C11 as c11
 from . import C01 as c01
 
-LEAF = ['Leaf_tick', 'Leaf_query']      # translated leaf functions this property's model relies on (Tie/<name>.v)
+LEAF = ['Leaf_tick', 'Leaf_query', 'Leaf_bpm', 'Leaf_timed']      # translated leaf functions this property's model relies on (Tie/<name>.v)
 RULE = ("(a) tempo maps with extreme accelerations/decelerations (n alternating 1 <-> 10^9), sub-microsecond ticks (BPM x resolution up to 10^12), and ordinary maps; ascending runs of "
         "consecutive ticks straddling 1-5 tempo boundaries plus random ticks (<= 60 per map), queried through timestamp_at_tick_no_optimize_return; judged: non-decreasing, equal ticks equal "
         "times, and strictly increasing whenever n x resolution <= 3*10^10 at every tempo (and the run lies in C01's domain); "
@@ -48,8 +48,8 @@ def q_cases(ctx, n):
     out = []
     for c in load_corpus("C12"):
         if c.get("kind") == "query":
-            out.append(c01.make_q(c["R"], [tuple(x) for x in c["tm"]], c["ticks"]))
-    out.append(c01.make_q(10 ** 6, [(0, 640000000), (6, 10 ** 9), (11, 999999999)], list(range(0, 30))))
+            out.append(c01.make_q(c["R"], [tuple(x) for x in c["tm"]], c["ticks"], direct=True))
+    out.append(c01.make_q(10 ** 6, [(0, 640000000), (6, 10 ** 9), (11, 999999999)], list(range(0, 30)), direct=True))
     while len(out) < n:
         R, tm, mode = gen_tm(rng)
         ticks = set()
@@ -57,7 +57,7 @@ def q_cases(ctx, n):
             ticks.update(range(max(0, t - 3), t + 4))
         ticks.update(rng.randint(0, tm[-1][0] + 20) for _ in range(10))
         ticks = sorted(ticks)[:60]
-        c = c01.make_q(R, tm, ticks)
+        c = c01.make_q(R, tm, ticks, direct=True)
         c["tags"] = ["q:" + mode]
         c["nontrivial"] = len(tm) >= 2 or mode == "subus"
         out.append(c)
@@ -71,6 +71,10 @@ def make_c(rng):
     pts = sorted({rng.randint(0, end) for _ in range(5)} | {t for t, _ in tm})
     def at(k):
         return sorted(rng.sample(pts, min(k, len(pts))))
+    headless = rng.random() < 0.12 and len(tm) >= 2
+    if headless:
+        # no tempo at tick 0 (dropped, or the whole map shifted): the chart is rejected, never timed from a made-up tempo
+        tm = tm[1:] if rng.random() < 0.5 else [(t + rng.choice([1, 5, R]), n) for t, n in tm]
     sync = ["0 = TS 4"] + ["%d = TS 3 2" % t for t in at(2) if t > 0] + tempo_lines(tm)
     ev = ['%d = E "section s"' % t for t in at(2)] + ['%d = E "lyric l"' % t for t in at(2)] + ['%d = E "t"' % t for t in at(2)]
     def body():
@@ -78,7 +82,7 @@ def make_c(rng):
         return b + ["%d = S 2 %d" % (t, rng.choice([0, 3])) for t in at(2)] + ["%d = E solo" % t for t in at(1)]
     text = chart_text(res=R, sync=sync, events=ev, tracks=[("ExpertSingle", body()), ("HardDoubleBass", body()), ("EasyDrums", body())])
     ch, exc, out = parse_case(text)
-    return dict(case=dict(kind="chart", text=text), in_term="(true, %s)" % parse_in_term(text), out_term=out,
+    return dict(case=dict(kind="chart", text=text), in_term="(%s, %s)" % (coq_bool(not headless), parse_in_term(text)), out_term=out,
                 nontrivial=len(tm) >= 2, tags=["c:" + mode, "c:impl_error" if exc is not None else "c:impl_ok"], signature="C12c:" + key_of(text))
 
 
@@ -89,7 +93,7 @@ def remake_c(c):
 
 def run(ctx, only=None):
     if only:
-        qs = [c01.make_q(c["R"], [tuple(x) for x in c["tm"]], c["ticks"]) for c in only if c and c.get("kind") == "query"]
+        qs = [c01.make_q(c["R"], [tuple(x) for x in c["tm"]], c["ticks"], direct=True) for c in only if c and c.get("kind") == "query"]
         cs = [remake_c(c) for c in only if c and c.get("kind") == "chart"]
     else:
         quick = ctx["tier"] == "quick"
